@@ -443,6 +443,46 @@ def layout(ctx: Any) -> List[Ob]:
     return obs
 
 
+def record_loop_obligations(ctx: Any, R: str) -> List[Ob]:
+    """`none lost`: one trip of the record loop of the decoder hands the frame it has just read to the record reader, whatever
+    the frame says (a zero rdata length is a legal record: an empty TXT), and a record that was built is appended -- on every
+    path of the trip; the question loop appends the question it has built."""
+    prog = ctx.prog
+    obs: List[Ob] = []
+    ro = prog.func(INC + '._read_others')
+    cfg = cfg_of(ro.node)
+    heads = [n for n in cfg.nodes if n.kind == 'for' and not n.in_loop]
+    if len(heads) != 1:
+        raise AnalysisError('anchor vanished: the record loop of _read_others')
+    h = heads[0]
+    me = ro.params[0]
+
+    def eff(node: Any, evl: Any) -> List[Any]:
+        out_ = []
+        for c in fd.node_calls(node, evl):
+            if call_name(c) == '_read_record':
+                out_.append('READ')
+            if call_name(c) == 'append' and isinstance(c.func, ast.Attribute) and self_attr(c.func.value, me) == '_answers':
+                out_.append(('KEEP', norm(c.args[0]) if c.args else '?'))
+        return out_
+
+    rec_names = {st.targets[0].id for st in walk_local_ordered(ro.node) if isinstance(st, ast.Assign) and isinstance(st.targets[0], ast.Name) and isinstance(st.value, ast.Call) and call_name(st.value) == '_read_record'}
+    for built in (True, False):
+        atoms = {norm(t.ast): (built if isinstance(t.ast, ast.Compare) and isinstance(t.ast.ops[0], ast.IsNot) else not built) for t in cfg.nodes if t.kind == 'test' and isinstance(t.ast, ast.Compare) and len(t.ast.ops) == 1 and isinstance(t.ast.ops[0], (ast.Is, ast.IsNot)) and isinstance(t.ast.left, ast.Name) and t.ast.left.id in rec_names}
+        oc, und = fd.run_paths(prog, ro.module, cfg, atoms, eff, start=h, stop=lambda n: n is h, loop_bound=1, for_iter=lambda n, e: True)
+        seqs = {tuple(x for x in strip_ret(t) if x == 'READ' or isinstance(x, tuple) and x[0] == 'KEEP') for t in oc}
+        want = {('READ',) + ((('KEEP', sorted(rec_names)[0]),) if built and rec_names else ())}
+        obs.append(ob(R, ro, h.ast, f'every record frame goes to the record reader (a record {"that was built is kept" if built else "of an unsupported type is dropped"})', len(rec_names) == 1 and seqs == want, f'per frame: {sorted(map(str, seqs))}; tests left open: {und}'))
+    rq = prog.func(INC + '._read_questions')
+    qcfg = cfg_of(rq.node)
+    qh = [n for n in qcfg.nodes if n.kind == 'for' and not n.in_loop]
+    if len(qh) == 1:
+        oc_q, _ = fd.run_paths(prog, rq.module, qcfg, {}, lambda n, e: [('Q', call_name(c)) for c in fd.node_calls(n, e) if call_name(c) in ('DNSQuestion', 'append')], start=qh[0], stop=lambda n: n is qh[0], loop_bound=1, for_iter=lambda n, e: True)
+        seq_q = {tuple(x[1] for x in strip_ret(t) if isinstance(x, tuple) and x[0] == 'Q') for t in oc_q}
+        obs.append(ob(R, rq, qh[0].ast, 'every question frame becomes a question and is kept', seq_q == {('DNSQuestion', 'append')}, f'per frame: {sorted(map(str, seq_q))}'))
+    return obs
+
+
 def label_walk_obligations(ctx: Any, R: str) -> List[Ob]:
     """The label walk of the decoder as linear forms in the position `off` and the length byte `length`: a zero byte ends the
     name and the caller resumes at off + 1; a plain label is the `length` bytes from off + 1, and the walk moves on by
@@ -815,6 +855,7 @@ def prims(ctx: Any) -> List[Ob]:
         obs.append(ob(R, a, f'self.{lst}.append({a.params[1]})', f'{aname} appends the entry it is given to `{lst}` (none lost)', seqs_a == {(('PUT', lst, a.params[1]),)}, f'effects {sorted(map(str, seqs_a))}'))
     obs.extend(resume_position_obligations(ctx, R))
     obs.extend(label_walk_obligations(ctx, R))
+    obs.extend(record_loop_obligations(ctx, R))
     return obs
 
 
